@@ -190,7 +190,8 @@ def refreshOp (s : St) (rows : String) : St × String :=
                                                 is pushed and debounced WHILE that refresh is running; release; quiescence
   reset evdb                                    a real refreshDebouncer (1 h interval, refreshFn blocks until released, timer fired by hand)
   evdbreq | evdbnow | evdbfire | evdbrel | evdbdrain   debounce() / refreshNow() / the timer fires / refreshFn returns / until quiet (Model DOp)
-  evdbserved                                    oracle "every request was followed by a refresh that started after it" -/
+  evdbserved                                    oracle "every request was followed by a refresh that started after it; every refreshNow() caller
+                                                was answered, and not by a refresh that had started before its call" (positions in the requests) -/
 def step (s : St) (ws : List String) : St × String :=
   let env := s.env
   match ws with
@@ -339,7 +340,10 @@ def step (s : St) (ws : List String) : St × String :=
   | ["evdbfire"] => debOp s .fire
   | ["evdbrel"] => debOp s .release
   | ["evdbdrain"] => debOp s .drain
-  | ["evdbserved"] => (s, oracleStr "lost:" s.deb.lost)
+  | ["evdbserved"] =>
+    (s, if !s.deb.lost.isEmpty then oracleStr "lost:" s.deb.lost
+        else if !s.deb.early.isEmpty then oracleStr "early:" s.deb.early
+        else oracleStr "unanswered:" s.deb.unanswered)
   | ["e2ebound"] => (s, "ok")
   | ["e2eorder", n] =>
     -- n STATUS_CHANGE frames written back to back: the buffer of the node-event debouncer is the wire order (C16_wire_order_last_wins)
